@@ -108,6 +108,28 @@ class Driver:
             self.changed_since_read = True
         self.invariant()
 
+    def op_bad_step(self, i):
+        """an action outside the (restricted) action space: rejected with ValueError by both interfaces, nothing changes -- the
+        state keeps its memoised observation, so no randomness is consumed"""
+        self.nops += 1
+        from gym_gridverse.action import Action
+        outside = [a for a in Action if not self.E.action_space.contains(a)]
+        if not outside:
+            return
+        a = outside[i % len(outside)]
+        for what, f in (('step', lambda: self.E.step(a)), ('functional_step', lambda: self.T.functional_step(self.sh_state, a))):
+            try:
+                f()
+            except ValueError:
+                pass
+            except Exception as e:  # noqa: BLE001
+                self.fail(f'{what}({a.name}) outside the action space raised {type(e).__name__}, not ValueError', 'reject')
+            else:
+                self.fail(f'{what} accepted {a.name}, which is outside the action space', 'reject')
+        if self.reads_this_state:
+            self.rejected_between_reads = True
+        self.invariant()
+
     def _shadow_obs(self):
         if self.sh_obs is None:
             self.sh_obs = self.T.functional_observation(self.sh_state)
@@ -199,6 +221,8 @@ class Driver:
             cl.append('representation_swapped')
         if getattr(self, 'reseeds', 0):
             cl.append('reseeded')
+        if getattr(self, 'rejected_between_reads', False):
+            cl.append('rejected_step_after_read' + ('_stochastic' if self.stochastic_obs else ''))
         self.ctx.ev.case(None, nt=(len(cl) > 1 + self.stochastic_obs) or self.repeated_stochastic > 0, classes=cl,
                          key=getattr(self, 'log', None) or [self.cfg, self.nops],
                          sample={'op_log (first 40)': getattr(self, 'log', [])[:40], 'cfg': self.cfg, 'ops': self.nops, 'mid_resets': self.mid_resets, 'repeated_stochastic_reads': self.repeated_stochastic})
@@ -249,6 +273,11 @@ def machine(tier, ctx, last):
             self.op('outer_obs')
 
         @started
+        @rule(i=st.integers(0, 7))
+        def bad_step(self, i):
+            self.op('bad_step', i)
+
+        @started
         @rule(seed=st.integers(0, 2**32 - 1))
         def reseed(self, seed):
             self.op('reseed', seed)
@@ -268,6 +297,6 @@ def oracle(log, ctx):
 CHECKS = [
     Check('shadow_machine', oracle, machine=machine, examples={'quick': 120, 'thorough': 400}, steps={'quick': 40, 'thorough': 60},
           shards={'quick': 8, 'thorough': 16},
-          rule='rule-based machine (reset, step, 1-3 observation reads, state read, outer state / observation reads) on perturbed shipped configurations vs. a functionally driven twin with the same seed',
-          required=['read_before_and_after_change', 'mid_episode_reset', 'repeated_reads_stochastic', 'representation_swapped', 'reseeded']),
+          rule='rule-based machine (reset, step, rejected step outside a restricted action space, re-seeding, 1-3 observation reads, state read, outer state / observation reads with the returned arrays overwritten, representation swap) on perturbed shipped configurations vs. a functionally driven twin with the same seed',
+          required=['read_before_and_after_change', 'mid_episode_reset', 'repeated_reads_stochastic', 'representation_swapped', 'reseeded', 'rejected_step_after_read_stochastic']),
 ]
